@@ -16,6 +16,7 @@
 import Depccg.Lazy
 import Depccg.Print.More
 import Depccg.Print.Json
+import Depccg.Print.Html
 
 namespace Depccg
 namespace Cli
@@ -32,6 +33,34 @@ def padDigits (w n : Nat) : Str :=
 def fmt8 (k : Int) : Str :=
   let a := k.natAbs
   (if k < 0 then [45] else []) ++ Str.ofNat (a / 64) ++ [46] ++ padDigits 6 ((a % 64) * 15625) ++ [48, 48]
+
+/-! ### `'{:.5e}'.format(k / 64)` -/
+
+/-- `|k|/64 = n / 10^6` with `n = |k| * 15625`; six significant digits of `n`, the rest rounded
+    half-to-even on the exact value (CPython's correctly rounded conversion), and the decimal
+    exponent with a sign and at least two digits -/
+def fmt5e (k : Int) : Str :=
+  let n := k.natAbs * 15625
+  if n = 0 then lit "0.00000e+00"
+  else
+    let len := (Str.ofNat n).length
+    let q0 := if len ≤ 6 then n * 10 ^ (6 - len) else n / 10 ^ (len - 6)
+    let r := if len ≤ 6 then 0 else n % 10 ^ (len - 6)
+    let p := 10 ^ (len - 6)
+    let up := len > 6 ∧ (2 * r > p ∨ (2 * r = p ∧ q0 % 2 = 1))
+    let q1 := if up then q0 + 1 else q0
+    let carry := q1 = 1000000
+    let q := if carry then 100000 else q1
+    let e : Int := (len : Int) - 7 + (if carry then 1 else 0)
+    let ds := Str.ofNat q
+    let es := Str.ofNat e.natAbs
+    (if k < 0 then [45] else []) ++ ds.take 1 ++ [46] ++ ds.drop 1 ++ [101] ++ (if e < 0 then [45] else [43])
+      ++ (if es.length < 2 then [48] else []) ++ es
+
+/-- the score text of the html header: `-inf` for the failure placeholder -/
+def scoreText5e : Option Int → Str
+  | some k => fmt5e k
+  | none => lit "-inf"
 
 /-- the score text of a result: `-inf` for the failure placeholder -/
 def scoreText : Option Int → Str
@@ -82,13 +111,13 @@ def scored (r : SentResult) : List (Tree × Str) :=
 inductive Fmt where
   | auto | autoExt | conll | ptb | deriv | ja
   | prologEn | prologJa          -- `--format prolog` under the English / Japanese program
-  | json
+  | json | html
   deriving DecidableEq, Repr
 
 def Fmt.fn : Fmt → Tree → Except Err Str
   | .auto => autoOf | .autoExt => autoExtOf | .conll => conllOf | .ptb => ptbOf | .deriv => derivOf | .ja => jaOf
   | .prologEn => fun _ => .ok [] | .prologJa => fun _ => .ok []      -- (not record formats: see `printText`)
-  | .json => fun _ => .ok []
+  | .json => fun _ => .ok [] | .html => fun _ => .ok []
 
 /-- the trees of the results, for the formats that print no score -/
 def treesOnly (results : List SentResult) : List (List Tree) :=
@@ -111,6 +140,7 @@ def printText (f : Fmt) (results : List SentResult) : Except Err Str :=
   | .prologEn => addNewline (prologEn (treesOnly results))
   | .prologJa => addNewline (prologJa (treesOnly results))
   | .json => .ok (jsonText (results.map scoredK) ++ [10])
+  | .html => addNewline (toMathml (results.map fun r => (scoredK r).map fun (p : Tree × Option Int) => (p.1, some (scoreText5e p.2))))
   | f =>
     match toStringLines f.fn (f == Fmt.conll) (results.map scored) with
     | .error e => .error e
